@@ -404,7 +404,7 @@ pub fn run(ctx: &Ctx) {
         check_case,
     );
     ctx.run_random(
-        Part::new("framed-read-long", RULE, ctx.tier.scale(12_000, 10)).floors(&[(">8KiB", 0.3), ("frame>8KiB", 0.15), (">1KiB", 0.5)]),
+        Part::new("framed-read-long", RULE, ctx.tier.scale(12_000, 10)).floors(&[(">8KiB", 0.3), ("frame>8KiB", 0.10), (">1KiB", 0.5)]),
         || strategy(true),
         check_case,
     );
